@@ -398,8 +398,14 @@ def client_reply(r, call):
         if alt and r.random() < 0.1:
             ln = 5000                          # announces more than the session's max_payload_size
             return sl.frame("S2M_FORWARD_BROADCAST_PAYLOAD_ACK", [("id", idv), ("valid", valid), ("altered_payload", True), ("altered_payload_length", ln)]) + pl + b"\n", False
-        return sl.frame("S2M_FORWARD_BROADCAST_PAYLOAD_ACK", [("id", idv), ("valid", valid), ("altered_payload", alt), ("altered_payload_length", ln)],
-                        pl if alt else None), False
+        full = sl.frame("S2M_FORWARD_BROADCAST_PAYLOAD_ACK", [("id", idv), ("valid", valid), ("altered_payload", alt), ("altered_payload_length", ln)],
+                        pl if alt else None)
+        if alt and len(pl) > 1 and r.random() < 0.2:
+            # the reply is cut inside the altered payload and the link drops there (a modulator that merely goes silent would
+            # leave the reader inside that payload and make the NEXT call's reply part of it: not judged call by call)
+            head = full.index(b"\n") + 1
+            return full[:head + r.randrange(0, len(pl))], True
+        return full, False
     if kind == "event":
         return sl.frame("S2M_FORWARD_EVENT_ACK", [("id", idv)]), False
     return sl.frame("S2M_MOD_DIRECT_ACK", [("id", idv), ("valid", r.random() < 0.6)]), False
@@ -514,6 +520,8 @@ def client_monitor(case, ob):
             good = declared and mine and toks[0] == b"S2M_FORWARD_BROADCAST_PAYLOAD_ACK" and b"valid=true" in toks
             if accepted and not good:
                 v.append(("C08", f"payload accepted although the modulator's reply was {line[:90]!r}", j))
+            if res == "ok" and good and b"altered_payload=true" in toks:
+                v.append(("C08", f"the modulator's verdict was 'valid, altered' ({line[:90]!r}) but the ORIGINAL payload was accepted", j))
             if isinstance(res, dict) and "altered" in res:
                 body = reply.split(b"\n", 1)[1] if b"\n" in reply else b""
                 if bytes.fromhex(res["altered"]) != body[:len(bytes.fromhex(res['altered']))] or b"altered_payload=true" not in toks:
